@@ -357,6 +357,13 @@ def binding_site(root, hid):
             for arm in n["arms"]:
                 if any(b.get("k") == "Binding" and b.get("hid") == hid for b in walk(arm["pat"])):
                     return arm["pat"], n["scrut"], "match"
+        if k in ("Call", "MethodCall") and isinstance(n.get("inlined"), dict):
+            # a parameter of a helper whose body is attached to this call (vlib/canon.py) is bound to the argument
+            inl = n["inlined"]
+            args = ([n["recv"]] if k == "MethodCall" else []) + list(n.get("args", []))
+            for pat, ai in zip(inl.get("params", []), inl.get("param_args", [])):
+                if ai < len(args) and any(b.get("k") == "Binding" and b.get("hid") == hid for b in walk(pat)):
+                    return pat, args[ai], "arg"
     return None, None, "param-or-unknown"
 
 
